@@ -99,6 +99,9 @@ type Scenario struct {
 	// PreShutdownSleepUs: pause between the last barrier and Shutdown (moves the
 	// moment of Shutdown relative to the writer's state; never a verdict).
 	PreShutdownSleepUs int `json:"pre_shutdown_sleep_us,omitempty"`
+	// ExtraShutdownCallers: that many further goroutines call Shutdown at about the same time as the main one (a
+	// signal handler and a module shutting down): none of the calls may return before everything is written.
+	ExtraShutdownCallers int `json:"extra_shutdown_callers,omitempty"`
 	// Stutter: while Shutdown runs, a helper process SIGSTOPs and SIGCONTs the
 	// child repeatedly (models the OS descheduling the process; a legal
 	// schedule). Used by the stutter job and by witnesses/regressions.
@@ -158,7 +161,9 @@ type Result struct {
 	// number of adapter calls seen when Shutdown was called / had returned / 200ms later
 	AtShutdownCall   int `json:"at_shutdown_call"`
 	AtShutdownReturn int `json:"at_shutdown_return"`
-	After200ms       int `json:"after_200ms"`
+	// ExtraShutdownReturns: adapter calls seen when each further Shutdown call returned
+	ExtraShutdownReturns []int `json:"extra_shutdown_returns,omitempty"`
+	After200ms           int   `json:"after_200ms"`
 	// pace 4 only (statistics, never a verdict): start/end of every adapter call and the
 	// moment the last log call of the scenario returned, microseconds since process start
 	WriteTimes [][2]int64 `json:"wt,omitempty"`
